@@ -317,7 +317,7 @@ def const_lines(layout, flags, waits=(0,), delays=(), enc=(False,), dec=(False,)
     allx = list(B) + list(C) + list(G)
     L = ["CONSTANTS", "  B = %s" % tla(set(B)), "  C = %s" % tla(set(C)), "  G = %s" % tla(set(G)),
          "  PrioMaps <- c_P", "  KindMaps <- c_K", "  Waits = %s" % tla(set(waits)), "  Delays = %s" % tla(set(delays)),
-         "  EncFails = %s" % tla(set(enc)), "  DecFails = %s" % tla(set(dec)), "  MaxCb = %d" % maxcb, "  MaxTrig = %d" % maxtrig,
+         "  EncFails = %s" % tla(set(enc)), "  DecFails = %s" % tla(set(dec)), "  MaxCb = %d" % maxcb, "  MaxTrig = %d" % maxtrig, "  MaxFire = 3",
          "  CbOn = %s" % tla(set(allx if cbon is None else cbon)), "  TimerOn = %s" % tla(set(allx if timeron is None else timeron)),
          "  Ops = %s" % tla(set(ops))]
     L += ["  %s = %s" % (d, tla(bool(flags.get(d, False)))) for d in DEVIATIONS]
@@ -357,39 +357,58 @@ def run_mc(chk, name, expect_error=False, dump=None, timeout=900, static=None, *
 
 
 # ---- R: spec -> code -----------------------------------------------------------------------------------------------------
-def edge_cover(nodes, edges, init):
+def edge_cover(nodes, edges, init, maxlen=250):
+    """walks from init that together take every edge reachable from init: follow untaken edges greedily; when the current
+    node has none left, go on along a shortest path to the nearest node that has (instead of starting over); a walk ends
+    after about maxlen steps"""
     succ = collections.defaultdict(list)
     for u, v in edges:
         succ[u].append(v)
-    parent = {init: None}
+    reach = {init}
     dq = collections.deque([init])
     while dq:
         u = dq.popleft()
         for v in succ[u]:
-            if v not in parent:
-                parent[v] = u
+            if v not in reach:
+                reach.add(v)
                 dq.append(v)
+    todo = {u: list(succ[u]) for u in reach if succ[u]}
+    remaining = sum(len(v) for v in todo.values())
 
-    def path_to(u):
-        p = []
-        while parent[u] is not None:
-            p.append(u)
-            u = parent[u]
-        return p[::-1]
-    todo = collections.defaultdict(list)
-    for u, v in edges:
-        if u in parent:
-            todo[u].append(v)
+    def nearest(u):
+        par = {u: None}
+        dq = collections.deque([u])
+        while dq:
+            w = dq.popleft()
+            if w is not u and todo.get(w):
+                path = []
+                while par[w] is not None:
+                    path.append(w)
+                    w = par[w]
+                return path[::-1]
+            for v in succ[w]:
+                if v not in par:
+                    par[v] = w
+                    dq.append(v)
+        return None
     walks = []
-    for start in sorted(todo, key=lambda u: len(path_to(u))):
-        while todo[start]:
-            walk = path_to(start)
-            u = start
-            while todo[u]:
+    while remaining:
+        walk, u = [], init
+        while len(walk) < maxlen:
+            if todo.get(u):
                 v = todo[u].pop()
+                remaining -= 1
                 walk.append(v)
                 u = v
-            walks.append(walk)
+            else:
+                path = nearest(u)
+                if path is None:
+                    break
+                walk += path
+                u = path[-1]
+        if not walk:
+            break
+        walks.append(walk)
     return walks
 
 
@@ -586,6 +605,9 @@ def classify(t, l):
         case = "complete_on_finished_unbound"
     elif op == "gabort" or (op == "fire" and isgroup):
         case = "group_abort_of_finished_group" if done(x) else "group_abort_of_unfinished_group"
+    elif op == "settle" and any(pre["tmo"][g - 1] == 0 for g in t["layout"][2]):
+        g = [g for g in t["layout"][2] if pre["tmo"][g - 1] == 0][0]           # the timeout task of a group runs in this pass
+        case = "group_abort_of_finished_group" if done(g) else "group_abort_of_unfinished_group"
     elif op == "qabort" and pre["queue"]:
         case = "ioqueue_abort_nonempty"
     elif op == "cabort" and pre["queue"] and pre["cstate"] == "idle":
@@ -707,28 +729,32 @@ def judge(chk, traces, label, seen, flags, selftest=False):
     for t in runnable:
         v = verdicts[t["tid"]]
         count_monitors(chk, t)
-        if v["viol"]:
-            for m, l in sorted(v["viol"], key=lambda x: (x[1], x[0])):
-                sig = classify(t, l)
-                gk = (m, sig["case"], sig["op"], sig["target"]) if sig["case"] == "other" else (m, sig["case"])
-                ck = "/".join(gk)
-                classes[ck] = classes.get(ck, 0) + 1
-                if gk in seen:
-                    continue
-                seen.add(gk)
-                e = t["evs"][l - 1]
-                pre = t["evs"][l - 2]["s"] if l > 1 else t["s0"]
-                detail = {"step": l, "call": [e["op"], e["x"], e["a"], e["b"]], "state_before": brief(pre), "state_after": brief(e["s"]),
-                          "first_step_the_design_cannot_take": v["rej"],
-                          "prefix": t["ops"][max(0, l - 10):l], "layout": t["layout"]}
-                chk.violation(m, sig, detail, dict(t["replay"], step=l))
-        elif v["rej"]:
+        unknown = False
+        for m, l in sorted(v["viol"], key=lambda x: (x[1], x[0])):
+            sig = classify(t, l)
+            gk = (m, sig["case"], sig["op"], sig["target"]) if sig["case"] == "other" else (m, sig["case"])
+            ck = "/".join(gk)
+            classes[ck] = classes.get(ck, 0) + 1
+            if chk.known_id(m, sig) is None:
+                unknown = True
+            if gk in seen:
+                continue
+            seen.add(gk)
+            e = t["evs"][l - 1]
+            pre = t["evs"][l - 2]["s"] if l > 1 else t["s0"]
+            detail = {"step": l, "call": [e["op"], e["x"], e["a"], e["b"]], "state_before": brief(pre), "state_after": brief(e["s"]),
+                      "first_step_the_design_cannot_take": v["rej"],
+                      "prefix": t["ops"][max(0, l - 10):l], "layout": t["layout"]}
+            chk.violation(m, sig, detail, dict(t["replay"], step=l))
+        if v["rej"]:
+            # the design model (with the flags observed on this tree) cannot take this step: reported whether or not a
+            # monitor failed somewhere in the trace
             l = v["rej"]
             e = t["evs"][l - 1]
             chk.deviation({"tid": t["tid"], "step": l, "call": [e["op"], e["x"], e["a"], e["b"]],
                            "state_before": brief(t["evs"][l - 2]["s"] if l > 1 else t["s0"]), "state_after": brief(e["s"]),
                            "flags": flags, "replay": dict(t["replay"], step=l)})
-        else:
+        elif not unknown:
             chk.traces_validated += 1
 
 
@@ -789,12 +815,13 @@ def main(tier, seed):
             run_mc(chk, cfg[:-4], static=cfg, timeout=2400)
     else:
         run_mc(chk, "ctl", layout=([1, 2, 3], [], []), prios=P3[:3], kinds=[N3, ["norm", "bad", "sync"]], waits=[0, 1],
-               delays=[1], maxcb=0, timeron=[1, 2])
-        run_mc(chk, "timers", layout=([1, 2], [], []), prios=[[0, 0], [1, 0]], kinds=[N3[:2]], waits=[0, 1], delays=[1, 2], maxcb=2)
+               delays=[1], maxcb=0, timeron=[1])
+        run_mc(chk, "timers", layout=([1, 2], [], []), prios=[[0, 0], [1, 0]], kinds=[N3[:2]], waits=[0, 1], delays=[1, 2], maxcb=2,
+               cbon=[1])
         run_mc(chk, "group", layout=([1, 2], [], [3]), prios=[[0, 0, 0]], kinds=[N3], waits=[0], delays=[1], maxcb=1,
-               cbon=[1, 3], timeron=[2, 3])
+               cbon=[1, 3], timeron=[3])
         run_mc(chk, "chain", layout=([1, 2], [3], []), prios=[[0, 0, 0]], kinds=[N3], waits=[0], delays=[1], enc=[False, True],
-               dec=[False, True], maxcb=1, cbon=[1, 3], timeron=[1, 3])
+               dec=[False, True], maxcb=1, cbon=[1, 3], timeron=[1])
     res = tlc.run_tlc("MC_IOCB", cfg_file="MC_IOCB_live.cfg", timeout=1200, name="IOCB/live")
     chk.tlc(res)
     if res["error_kind"]:
@@ -814,14 +841,27 @@ def main(tier, seed):
     chk.extra["code_flags_observed"] = flags
 
     # R: edge covers of TLC's graphs (of the design with the observed flags), executed on the real classes
-    hist = replay_graph(chk, "R_ctl", ([1, 2, 3], [], []), prios=P3 if thorough else P3[:2], kinds=[N3, ["norm", "bad", "sync"]],
-                        waits=[0, 1], delays=[], maxcb=0, flags=flags)
-    hist += replay_graph(chk, "R_timers", ([1, 2], [], []), prios=[[0, 0]], kinds=[N3[:2]], waits=[0, 1], delays=[1, 2] if thorough else [1],
-                         maxcb=2 if thorough else 1, cbon=[1], flags=flags)
-    hist += replay_graph(chk, "R_group", ([1, 2], [], [3]), prios=[[0, 0, 0]], kinds=[N3], waits=[0], delays=[1], maxcb=1,
-                         cbon=[1, 3] if thorough else [3], timeron=[3], flags=flags)
-    hist += replay_graph(chk, "R_chain", ([1, 2], [3], []), prios=[[0, 0, 0]], kinds=[N3], waits=[0], delays=[1] if thorough else [],
-                         enc=[False, True], dec=[False, True], maxcb=1, cbon=[1, 3] if thorough else [1], timeron=[1], flags=flags)
+    two = [["norm", "norm"], ["bad", "sync"]]
+    hist = replay_graph(chk, "R_ctl2", ([1, 2], [], []), prios=[[0, 0], [1, 0]], kinds=two, waits=[0, 1], delays=[], maxcb=0, flags=flags)
+    if thorough:
+        hist += replay_graph(chk, "R_ctl3", ([1, 2, 3], [], []), prios=P3[:3], kinds=[N3, ["norm", "bad", "sync"]], waits=[0, 1],
+                             delays=[], maxcb=0, ops=["request", "complete", "abort", "cabort", "qabort"], flags=flags)
+        hist += replay_graph(chk, "R_timers", ([1, 2], [], []), prios=[[0, 0]], kinds=two[:1], waits=[0, 1], delays=[1], maxcb=1, cbon=[1],
+                             timeron=[1, 2], ops=["request", "complete", "abort", "settle"], flags=flags)
+        hist += replay_graph(chk, "R_group", ([1, 2], [], [3]), prios=[[0, 0, 0]], kinds=[N3], waits=[0], delays=[1], maxcb=1,
+                             cbon=[1, 3], timeron=[3], ops=["request", "complete", "abort", "gabort"], flags=flags)
+        hist += replay_graph(chk, "R_chain", ([1], [2], [3]), prios=[[0, 0, 0]], kinds=[N3], waits=[0], delays=[1], enc=[False, True],
+                             dec=[False, True], maxcb=1, cbon=[1, 3], timeron=[1], ops=["request", "complete", "abort", "gabort"],
+                             flags=flags)
+    else:
+        hist += replay_graph(chk, "R_ctl3", ([1, 2, 3], [], []), prios=P3[:3], kinds=[N3], waits=[0], delays=[], maxcb=0,
+                             ops=["request", "complete", "cabort"], flags=flags)
+        hist += replay_graph(chk, "R_timers", ([1, 2], [], []), prios=[[0, 0]], kinds=two[:1], waits=[1], delays=[1], maxcb=1, cbon=[1],
+                             timeron=[1], ops=["request", "complete", "settle"], flags=flags)
+        hist += replay_graph(chk, "R_group", ([1, 2], [], [3]), prios=[[0, 0, 0]], kinds=[N3], waits=[0], delays=[1], maxcb=1,
+                             cbon=[3], timeron=[3], ops=["complete", "abort", "gabort"], flags=flags)
+        hist += replay_graph(chk, "R_chain", ([1, 2], [3], []), prios=[[0, 0, 0]], kinds=[N3], waits=[0], delays=[], enc=[False, True],
+                             dec=[False, True], maxcb=0, ops=["request", "complete", "abort"], flags=flags)
     phase("R_graphs")
     rtraces = [exec_walk((1000000 + i, h)) for i, h in enumerate(hist)]
     for t in rtraces:
@@ -833,8 +873,8 @@ def main(tier, seed):
     phase("R_trace_validation")
 
     # T: seeded random histories
-    ntr = 400 if thorough else 60
-    jobs = [(i + 1, rng.randrange(2 ** 30), rng.choice([40, 120, 300])) for i in range(ntr)]
+    ntr = 600 if thorough else 80
+    jobs = [(i + 1, rng.randrange(2 ** 30), rng.choice([40, 80, 160, 300])) for i in range(ntr)]
     ttraces = [t_history(j) for j in jobs]
     for t in ttraces:
         note_cases(chk, t)
